@@ -254,6 +254,10 @@ fn run_chunk(id: &str, tier: Tier, verbose: bool) -> ChunkOut {
                 qsets.push(vec![("checksum", v)]);
             }
             qsets.push(vec![("!", "v")]);
+            // an empty value next to a checksum (before it, after it), a qualifier after a checksum
+            qsets.push(vec![("a", ""), ("checksum", "B:FF,a:0A")]);
+            qsets.push(vec![("a", ""), ("checksum", "zz")]);
+            qsets.push(vec![("checksum", "a:00"), ("repository_url", "u"), ("z", "")]);
             for ty in ["t", "T.1+x-", "!", "npm", "PyPI", "maven", "NPM", "Cargo"] {
                 for fi in 0..4 {
                     for fj in 0..4 {
